@@ -43,7 +43,7 @@ func newSession(script string) (*session, string, error) {
 		return nil, "", err
 	}
 	s := &session{cmd: cmd, in: in, out: bufio.NewReader(outp)}
-	io.WriteString(in, "(set-option :timeout 8000)\n")
+	io.WriteString(in, "(set-option :timeout 8000)\n(set-option :model.completion true)\n(set-option :model_evaluator.completion true)\n")
 	io.WriteString(in, script)
 	res, err := s.check()
 	return s, res, err
@@ -249,9 +249,13 @@ func (x *extractor) lit(t Term, ty types.Type, depth int) string {
 			x.pins = append(x.pins, mkEq(t, Term{v, SBool}).S)
 			return fmt.Sprintf("%s(%s)", tyStr, v)
 		case u.Info()&types.IsString != 0:
+			nerr := len(x.errs)
 			n, ok := x.scalar(mk(bvSort(64), "strlen", t))
 			if !ok {
-				return `""`
+				// the solver's model of the uninterpreted string sort could not be evaluated for this
+				// term: use the empty string, unpinned (the real run decides)
+				x.errs = x.errs[:nerr]
+				return fmt.Sprintf("%s(\"\")", tyStr)
 			}
 			if n.Cmp(big.NewInt(replayMaxElems)) > 0 {
 				x.tooLong = append(x.tooLong, fmt.Sprintf("(and (bvsle (_ bv0 64) (strlen %s)) (bvsle (strlen %s) (_ bv%d 64)))", t.S, t.S, replayMaxElems))
@@ -414,6 +418,7 @@ func tryReplay(eng *Engine, o *Obligation, info map[string]any, repo string) boo
 	script = strings.Replace(script, "(get-model)\n", "", 1)
 	// Model search for the replay drops universally quantified assumptions
 	// (a weakening: more models). The candidate is then judged on the real code.
+	fullScript := script
 	script = dropQuantified(script)
 	pkg := eng.typesPkgByPath(pkgPath)
 	var softs []string
@@ -432,6 +437,10 @@ func tryReplay(eng *Engine, o *Obligation, info map[string]any, repo string) boo
 	var argLits []string
 	inputs := map[string]string{}
 	var s *session
+	// first choice: a model of the complete query (all quantified assumptions kept), found by the
+	// solver that reported the counterexample; only if that session gives no model, quantified
+	// assumptions are dropped (a weakening whose models may be spurious; the real run decides)
+	useFull := true
 	for round := 0; round < 4; round++ {
 		sessionSolver = "z3-new"
 		if o.Solver == "z3" {
@@ -439,7 +448,21 @@ func tryReplay(eng *Engine, o *Obligation, info map[string]any, repo string) boo
 		}
 		var res string
 		var err error
-		s, res, err = newSession(script)
+		if useFull {
+			s, res, err = newSession(fullScript)
+			if err != nil || res != "sat" {
+				if s != nil {
+					s.close()
+				}
+				useFull = false
+			} else {
+				script = fullScript
+			}
+		}
+		if !useFull {
+			script = dropQuantified(fullScript)
+			s, res, err = newSession(script)
+		}
 		if (err != nil || res != "sat") && sessionSolver == "z3-new" {
 			if s != nil {
 				s.close()
@@ -454,6 +477,7 @@ func tryReplay(eng *Engine, o *Obligation, info map[string]any, repo string) boo
 			info["replay"] = "no model available from the interactive solver session (" + res + ")"
 			return false
 		}
+		info["replay_model_from"] = map[bool]string{true: "complete query", false: "query with quantified assumptions dropped"}[useFull]
 		for _, c := range softs {
 			s.soft(c)
 		}
